@@ -60,7 +60,7 @@ structure DemuxCfg where
   deriving Inhabited
 
 def ReaderKind.name : ReaderKind → String
-  | .seek => "seek" | .bufio => "bufio" | .plain => "plain"
+  | .seek => "seek" | .bufio => "bufio" | .plain => "plain" | .bufioSmall => "bufio64"
 def ParserKind.name : ParserKind → String
   | .none => "none" | .observer => "observer" | .replacer => "replacer" | .failing => "failing"
 
@@ -75,7 +75,7 @@ inductive CallRes where
   | rewound (n : Int) (pos : Nat)
   | poisoned
 
-def posStr (k : ReaderKind) (pos : Nat) : String := if k == .bufio then "-" else toString pos
+def posStr (k : ReaderKind) (pos : Nat) : String := if k == .bufio || k == .bufioSmall then "-" else toString pos
 
 def CallRes.show (k : ReaderKind) : CallRes → String
   | .data r pos => r.showPub DemuxerData.toJson ++ "@" ++ posStr k pos
